@@ -7,6 +7,7 @@
  *
  * case:  hist TOKEN...        (at most 62 tokens)
  *   F<name>=<hex>   file <name> with the given content (created before the first operation)
+ *   C<n>            a chain of n files c0 .. c<n-1>: c<k> holds "begin foo", "t<k>", "%include c<k+1>" (not the last), "u<k>", "end"
  *   T               TMPDIR names a directory that does not exist (for the whole case)
  *   i               spifconf_init_subsystem          -> i
  *   f               spifconf_free_subsystem          -> f:vars=<0|1>,tabs=<0|1>
@@ -129,6 +130,22 @@ static int count_fds(void)
     closedir(d);
     return n;
 }
+/* descriptors left open by a case (a config file that includes itself leaves 256 of them when the 8-bit
+ * file index wraps) are closed before the next case so that fopen() keeps succeeding */
+static void close_above(int keep)
+{
+    DIR *d = opendir("/proc/self/fd");
+    struct dirent *e;
+    int fds[4096], n = 0, k, self;
+    if (!d) return;
+    self = dirfd(d);
+    while ((e = readdir(d)) && n < 4096) {
+        int fd = atoi(e->d_name);
+        if (e->d_name[0] != '.' && fd > keep && fd != self) fds[n++] = fd;
+    }
+    closedir(d);
+    for (k = 0; k < n; k++) close(fds[k]);
+}
 static void clean_dir(const char *dir)
 {
     DIR *d = opendir(dir);
@@ -189,9 +206,26 @@ static void do_hist(int n, char **t)
 {
     int k;
     long live0;
+    static int fd_keep = -1;
+    if (fd_keep < 0) { int fd = open("/dev/null", O_RDONLY); fd_keep = fd; close(fd); fd_keep--; }
+    close_above(fd_keep);
     clean_dir(lv_dir);
     lv_may_spawn = 0;
     for (k = 1; k < n; k++) {
+        if (t[k][0] == 'C') {
+            int cn = atoi(t[k] + 1), j;
+            for (j = 0; j < cn; j++) {
+                char nm[32];
+                FILE *f;
+                snprintf(nm, sizeof(nm), "c%d", j);
+                f = fopen(nm, "wb");
+                if (!f) { printf("HARNESS-ERROR:create"); return; }
+                fprintf(f, "<lv-1.0>\nbegin foo\nt%d\n", j);
+                if (j + 1 < cn) fprintf(f, "%%include c%d\n", j + 1);
+                fprintf(f, "u%d\nend\n", j);
+                fclose(f);
+            }
+        }
         if (t[k][0] == 'F') {
             char *eq = strchr(t[k], '=');
             size_t len;
@@ -222,6 +256,7 @@ static void do_hist(int n, char **t)
         switch (t[k][0]) {
         case 'F':
         case 'T':
+        case 'C':
             continue;
         case 'i':
             spifconf_init_subsystem();
